@@ -621,7 +621,7 @@ func optHexGo(b []byte) string {
 
 func runC08(c *Ctx) {
 	r := c.Res
-	r.Rule = "(1) token level: numeric-looking strings (boundary numerals around 2^63/2^64/MaxFloat64/MaxFloat32, random digit/exponent strings, the regex-typo alphabet incl. ':') and string-literal-looking strings (every escape form, near-miss escapes, raw control/non-ASCII/invalid bytes): Go regexp token rules, nextToken, parseInt/parseFloat/parseFloat32/unquoteBytes (panic = recover) vs the Lean recognisers/converters; non-trivial = the rule matched or a converter was exercised. (2) API level: grammar-aware mutants (numeral/string/keyword substitution, truncation at every byte of small seeds, punctuation/byte insertion, span delete/dup/splice, nesting) of the repo's own .mro files + built-in near-valid programs and value expressions through ParseSourceBytes, ParseValExp, FormatSrcBytes under recover() with a deadline of 2 s + 20 us/byte; non-trivial = mutant differs from its seed; distinct = distinct input. (3) scaling probes in a subprocess (nesting depth up to 1e5/1e6, long lists/strings/comments, many declarations/calls/comments)."
+	r.Rule = "(1) token level: numeric-looking strings (boundary numerals around 2^63/2^64/MaxFloat64/MaxFloat32, random digit/exponent strings, the regex-typo alphabet incl. ':') and string-literal-looking strings (every escape form, near-miss escapes, raw control/non-ASCII/invalid bytes): Go regexp token rules, nextToken, parseInt/parseFloat/parseFloat32/unquoteBytes (panic = recover) vs the Lean recognisers/converters; non-trivial = the rule matched or a converter was exercised. (1b) regex model: generated regex/input pairs inside the syntax subset of Martian.Regex.parse (alternation, greedy and counted repetition, classes, negated classes, anchors; inputs sampled from the regex, corrupted, with non-ASCII/invalid tails) through Go regexp Compile+Find vs the Lean parser + leftmost-first matcher, and the four regenerated rule regexes through the generic matcher vs the real rule functions; non-trivial = Go found a match. (1c) whole tokenizer: token streams (id, text, line, column), comment blocks and final position of the real mmLexInfo.Lex loop vs the Lean tokenizer model (interpreted from the regenerated keywordToken switch and token constants) on the repo .mro files, byte-level mutants and concatenations of keywords/near-keywords/numerals/strings/comments/ASCII and non-ASCII white space/invalid bytes, plus nextToken on single heads and a direct prefix/progress monitor; non-trivial = more than one token. (2) API level: grammar-aware mutants (numeral/string/keyword substitution, truncation at every byte of small seeds, punctuation/byte insertion, span delete/dup/splice, nesting) of the repo's own .mro files + built-in near-valid programs and value expressions through ParseSourceBytes, ParseValExp, FormatSrcBytes under recover() with a deadline of 2 s + 20 us/byte; non-trivial = mutant differs from its seed; distinct = distinct input. (3) scaling probes in a subprocess (nesting depth up to 1e5/1e6, long lists/strings/comments, many declarations/calls/comments)."
 	if c.Drv == nil {
 		fatal("C08 needs the Lean driver")
 	}
